@@ -182,8 +182,9 @@ def classify(c):
 MARGIN = Fraction(1, 10 ** 4)
 
 
-def compare(c, m, real):
+def compare(c, m, real, mode="impl"):
     """real routine vs a model reply (Impl or Spec).  Returns (verdict, what): verdict ∈ ok | skip | fail.
+    In `spec` mode inputs whose lag-0 sum is zero are outside the property's hypothesis: only the time axis is judged.
     `what` is a short canonical tag (value / lag0 / time / columns / raise:<E> / noraise / finite-on-div0)."""
     T = c["T"]
     if m["status"] == "novalue":
@@ -204,7 +205,7 @@ def compare(c, m, real):
         return "fail", "time"
     if m["status"] == "div0":
         # excluded by hypothesis: 0/0; the routine must not raise; with the integer data of this stream the lag-0 entry is not finite
-        if np.isfinite(corr[0]):
+        if mode == "impl" and np.isfinite(corr[0]):
             return "fail", "finite-on-div0"
         return "ok", ""
     if m["margin"] < MARGIN:
@@ -218,7 +219,7 @@ def compare(c, m, real):
 
 
 def describe(c, m, real, what):
-    mode = ("even" if m.get("even") else "uneven") if "even" in m else "?"
+    mode = "single frame" if c["T"] == 1 else ("evenly spaced" if _even(c) else "unevenly spaced")
     head = f"time_correlation on a {classify(c)} series shape {shape_of(c)}, timesteps {c['ts']} ({mode}), dt {c['dt']}: "
     if what.startswith("raise"):
         return head + f"raised {real[1]}: {real[2]}"
@@ -226,11 +227,13 @@ def describe(c, m, real, what):
         return head + "returned a table although len(condition.shape) is not 2, 3 or 4"
     if real[0] != "ok":
         return head + what
+    if what == "finite-on-div0":
+        return head + f"the lag-0 sum is exactly 0 (0/0): the model expects a non-finite lag-0 entry, the routine returned {[float(x) for x in real[3]]}"
     if what == "value":
         exp = [float(x) for x in m["corr"]]
         return head + f"time_corr = {[float(x) for x in real[3]]} but the definition gives {exp}"
     if what == "lag0":
-        return head + f"value at lag zero is {real[3][0]!r}, not exactly 1"
+        return head + f"value at lag zero is {float(real[3][0])!r}, not exactly 1"
     if what == "time":
         return head + f"t = {[float(x) for x in real[2]]} but (timestep − first timestep)·dt = {[float(x) for x in m['t']]}"
     if what == "columns":
@@ -250,7 +253,7 @@ def run_cases(run, cases, mode="impl", record=True):
             raise common.Infra("driver rejected op: " + op_line(c, mode)[:200])
         m = parse_model(o, c["T"])
         real = real_out(c)
-        verdict, what = compare(c, m, real)
+        verdict, what = compare(c, m, real, mode)
         if record:
             run.hist("shape", KIND.get(c["shapeLen"], f"len{c['shapeLen']}"))
             run.hist("dtype", "complex" if c["cplx"] else "real")
